@@ -120,6 +120,9 @@ func (e *Engine) reachesWarning(f *ssa.Function, seen map[*ssa.Function]bool) bo
 
 func runDeterminism(e *Engine, res *checkResult, timeout int, two bool, work string, stats *solveStats) {
 	p := res.prop
+	// contract clauses tagged with the property (comparators that must
+	// separate different keys) are proved like for every other property
+	runContractProperty(e, res, timeout, two, work, stats)
 	mk := func(name, text string, ok bool, pos, detail string) *Obligation {
 		goal := "true"
 		if !ok {
